@@ -351,6 +351,71 @@ static InstResult run_unterminated(const std::vector<CrashInfo> &cr) {
 	return E.finish();
 }
 
+// Sequences of two and three directives in one format string, every length modifier in every position: the state the
+// parser keeps per directive (flags, width, precision, size modifier) must not leak into the next one.  Every argument is
+// the exact object its directive is entitled to: integers and doubles occupy exactly their slots in an argument area that
+// ends at a PROT_NONE page, narrow and wide string arguments are exactly-sized terminated buffers that end at such a page
+// too.  A directive that reads its argument with a wider type than written (a stale `l`, `ll` or `L`) leaves the area or
+// the string; the number of slots consumed must be exactly the sum over the directives.
+struct SeqDir { const char *text; int kind; };   // kind: 0 integer slot, 1 narrow string, 2 wide string, 3 double, 4 long double, 5 pointer, 6 char
+static InstResult run_directive_sequences(const std::vector<CrashInfo> &cr, bool th) {
+	Enumerator E("printf-directive-sequences", "C20", cr);
+	static const SeqDir dirs[] = {
+		{"%d", 0}, {"%u", 0}, {"%x", 0}, {"%5.3d", 0}, {"%-6i", 0}, {"%#o", 0}, {"%c", 6}, {"%s", 1}, {"%.1s", 1}, {"%4s", 1}, {"%p", 5}, {"%f", 3}, {"%.2f", 3},
+		{"%hhd", 0}, {"%hd", 0}, {"%ld", 0}, {"%lld", 0}, {"%zd", 0}, {"%td", 0}, {"%jd", 0}, {"%hhu", 0}, {"%hx", 0}, {"%lu", 0}, {"%llx", 0}, {"%zu", 0}, {"%lo", 0},
+		{"%ls", 2}, {"%.1ls", 2}, {"%lf", 3}, {"%Lf", 4}, {"%lc", 6},
+	};
+	const size_t ND = sizeof dirs / sizeof dirs[0];
+	static GuardBuf gfmt, gslots, gnarrow, gwide;
+	const char *narrow = gnarrow.place_cstr("ab");
+	static const wchar_t wsrc[3] = {L'a', L'b', 0};
+	const wchar_t *wide = gwide.place<wchar_t>(wsrc, 3);
+	auto run = [&](const std::vector<size_t> &seq) {
+		std::string f; std::vector<uint64_t> slots; bool has_ld = false;
+		for(size_t k = 0; k < seq.size(); k++) {
+			const SeqDir &d = dirs[seq[k]];
+			if(k) f += "|";
+			f += d.text;
+			switch(d.kind) {
+			case 0: slots.push_back(0x12c); break;                 // 300: fits every integer type but char
+			case 6: slots.push_back('A'); break;
+			case 1: slots.push_back((uint64_t)(uintptr_t)narrow); break;
+			case 2: slots.push_back((uint64_t)(uintptr_t)wide); break;
+			case 5: slots.push_back(0x1234); break;
+			case 3: { double x = 1.5; uint64_t b; memcpy(&b, &x, 8); slots.push_back(b); break; }
+			case 4: { has_ld = true; if(slots.size() & 1) slots.push_back(0); long double x = 1.5L; uint64_t b[2] = {0, 0}; memcpy(b, &x, sizeof x > 16 ? 16 : sizeof x); slots.push_back(b[0]); slots.push_back(b[1]); break; }
+			}
+		}
+		if(has_ld && (slots.size() & 1)) return;       // (a long double is fetched from a 16-aligned address: keep the area's start aligned, or skip)
+		E.eval("printf " + printable(f), "printf.directive-sequence", [&] {
+			uint64_t *area = gslots.place<uint64_t>(slots.data(), slots.size());
+			frg::va_struct vs; frg::arg arg_list[NL_ARGMAX + 1]; vs.arg_list = arg_list;
+			memset((void *)arg_list, 0, sizeof arg_list);
+			struct VaTag { unsigned gp_offset, fp_offset; void *overflow_arg_area, *reg_save_area; };
+			VaTag *tag = reinterpret_cast<VaTag *>(&vs.args[0]);
+			tag->gp_offset = 48; tag->fp_offset = 176; tag->overflow_arg_area = area; tag->reg_save_area = nullptr;
+			CountSink sink;
+			const char *fmt = gfmt.place_cstr(f);
+			bool panicked = false;
+			try { auto res = frg::printf_format(PAgent{&sink, &vs}, fmt, &vs); (void)res; }
+			catch(const Panic &) { panicked = true; }
+			catch(const CountSink::Flood &) { panicked = true; }
+			size_t consumed = ((uint64_t *)tag->overflow_arg_area - area);
+			if(!sink.intact()) throw Violation{"C20", "printf:sink-canary", "memory next to the sink was overwritten"};
+			if(consumed > slots.size()) throw Violation{"C20", "printf:va-overrun", "consumed " + std::to_string(consumed) + " variadic slots, the directives account for " + std::to_string(slots.size())};
+			if(!panicked && consumed != slots.size()) throw Violation{"C20", "printf:va-count", "consumed " + std::to_string(consumed) + " variadic slots, the directives consume " + std::to_string(slots.size())};
+		});
+	};
+	for(size_t a = 0; a < ND; a++) run({a});
+	for(size_t a = 0; a < ND; a++) for(size_t b = 0; b < ND; b++) run({a, b});
+	// triples: modifier-carrying directive in the middle or at either end of plain ones (all triples in the thorough tier)
+	for(size_t a = 0; a < ND; a++) for(size_t b = 0; b < ND; b++) for(size_t c = 0; c < ND; c++) {
+		if(!th && !((a < 13) + (b < 13) + (c < 13) == 2 && (a % 3 == 0 || a >= 13) && (c % 3 == 1 || c >= 13))) continue;
+		run({a, b, c});
+	}
+	return E.finish();
+}
+
 static std::vector<Instance> instances(const std::string &tier) {
 	bool th = tier == "thorough";
 	std::vector<Instance> v;
@@ -365,6 +430,7 @@ static std::vector<Instance> instances(const std::string &tier) {
 	for(int s = 0; s < NC; s++) add("cmdline-parse-" + std::to_string(s), [=](const std::vector<CrashInfo> &cr) { return run_cmdline(cr, th ? 8 : 7, s, NC); });
 	add("printf-float-values", [=](const std::vector<CrashInfo> &cr) { return run_float_values(cr); });
 	add("printf-unterminated-args", [=](const std::vector<CrashInfo> &cr) { return run_unterminated(cr); });
+	add("printf-directive-sequences", [=](const std::vector<CrashInfo> &cr) { return run_directive_sequences(cr, th); });
 	add("escape_fmt", [=](const std::vector<CrashInfo> &cr) { return run_escape(cr, th ? 5 : 4); });
 	add("to_number-parse", [=](const std::vector<CrashInfo> &cr) { return run_tonumber(cr, th ? 8 : 6); });
 	return v;
